@@ -39,6 +39,7 @@ type Verdict struct {
 	Probes      map[string]int64 `json:"-"`
 	Steps       int64            `json:"-"`
 	Faults      map[string]int64 `json:"-"`
+	Trace       uint64           `json:"-"` // hash of the full (task, site) event sequence of the run
 }
 
 // Plan tells the driver how to run one group of workers.
@@ -150,6 +151,7 @@ type WorkerOut struct {
 	MapUnctl     int64             `json:"map_uncontrolled"`
 	Warnings     []string          `json:"warnings"`
 	Tainted      bool              `json:"tainted"`
+	Digest       uint64            `json:"digest"` // fold of every run's fingerprint, step count, trace hash and verdict
 	DetChecked   int               `json:"det_checked"`
 	DetMismatch  int               `json:"det_mismatch"`
 }
@@ -159,6 +161,7 @@ type ViolationRec struct {
 	Class    string `json:"class"`
 	Detail   string `json:"detail"`
 	CaseFile string `json:"case_file"`
+	Idx      int    `json:"idx"` // index of the run within its worker
 }
 
 func runSeed(base uint64, worker, idx int) uint64 {
@@ -183,7 +186,7 @@ func work(id string, p Prop, args []string) int {
 	size := fs.Int("size", 0, "")
 	race := fs.Bool("race", false, "built with -race")
 	progress := fs.String("progress", "", "file that receives RUN <seed> lines (race workers)")
-	maxViol := fs.Int("maxviol", 3, "")
+	maxViol := fs.Int("maxviol", 1, "a violation may taint process-wide state: stop at the first one")
 	fs.Parse(args)
 	pl := &Plan{Name: *planName, Variant: *variant, Race: *race, Size: *size}
 	t0 := time.Now()
@@ -211,6 +214,7 @@ func work(id string, p Prop, args []string) int {
 		v := p.Run(c)
 		o.Runs++
 		o.Steps += v.Steps
+		o.Digest = fnvU(fnvU(fnvU(fnvU(o.Digest, v.Fingerprint), uint64(v.Steps)), v.Trace), uint64(len(v.Class))<<8|uint64(len(v.Discard)))
 		for k, n := range v.Probes {
 			o.Probes[k] += n
 		}
@@ -241,7 +245,7 @@ func work(id string, p Prop, args []string) int {
 		if i%97 == 3 && !v.Violation && v.Discard == "" {
 			v2 := p.Run(c)
 			o.DetChecked++
-			if v2.Fingerprint != v.Fingerprint || v2.Violation != v.Violation || v2.Discard != v.Discard {
+			if v2.Fingerprint != v.Fingerprint || v2.Violation != v.Violation || v2.Discard != v.Discard || v2.Trace != v.Trace || v2.Steps != v.Steps {
 				o.DetMismatch++
 			}
 		}
@@ -249,7 +253,7 @@ func work(id string, p Prop, args []string) int {
 			o.Known[v.Known]++
 		}
 		if v.Violation && v.Known == "" {
-			rec := ViolationRec{RunSeed: rs, Class: v.Class, Detail: v.Detail}
+			rec := ViolationRec{RunSeed: rs, Class: v.Class, Detail: v.Detail, Idx: i}
 			if *out != "" {
 				rec.CaseFile = fmt.Sprintf("%s/viol-%s-%s-w%d-%d.json", *out, id, *planName, *worker, len(o.Violations))
 				writeJSON(rec.CaseFile, c)
